@@ -34,6 +34,10 @@ func poolDoc(r *rng, schema byte) []elem {
 		return []elem{{"p", &val{T: 0x03, Doc: []elem{{"ab", i()}, {"c", i()}}}}}
 	case 'K':
 		return []elem{{"p", &val{T: 0x03, Doc: []elem{{"a", i()}, {"bc", i()}}}}}
+	case 'L': // L and M: the same leaf names in the same order, grouped differently into array entries
+		return []elem{{"cpu", &val{T: 0x04, Arr: []*val{{T: 0x03, Doc: []elem{{"user", i()}}}, {T: 0x03, Doc: []elem{{"sys", i()}}}}}}}
+	case 'M':
+		return []elem{{"cpu", &val{T: 0x04, Arr: []*val{{T: 0x03, Doc: []elem{{"user", i()}, {"sys", i()}}}}}}}
 	case 'Z': // no metrics at all
 		return []elem{{"s", &val{T: 0x02, B: []byte("only")}}}
 	}
@@ -237,7 +241,10 @@ func init() {
 		// 1b. renames that keep the concatenation of the key names (separator-sensitive hashing)
 		for _, kind := range []string{"dyn", "sdyn"} {
 			for _, n := range []int{1, 2, 3} {
-				enumerate("HIJK", 3, func(seq string) {
+				enumerate("HIJKLM", 3, func(seq string) {
+					if !thorough && len(seq) == 3 && !r.chance(1, 2) {
+						return
+					}
 					id++
 					c := mk(kind, n, seq)
 					c.tag = "acceptall"
